@@ -34,6 +34,8 @@ def freeze(v, depth=0):
         pass
     if isinstance(v, range):
         return ('range', v.start, v.stop, v.step)
+    if type(v).__name__ == 'Box' and hasattr(v, '__dict__'):
+        return ('object', type(v).__name__, freeze(dict(v.__dict__), depth + 1))      # the harness's own plain attribute object
     return repr(v)
 
 
@@ -100,6 +102,14 @@ def mutable_ids(obj, seen=None, path='', depth=0):
             seen.setdefault(id(v), p)
             for k, x in v.items():
                 visit(x, f'{p}[{k!r}]', depth + 1)
+        elif isinstance(v, tuple):
+            # immutable itself (and hashable if its items are), but what it holds may not be
+            for i, x in enumerate(v):
+                visit(x, f'{p}[{i}]', depth + 1)
+        elif type(v).__name__ == 'Box' and hasattr(v, '__dict__'):
+            seen.setdefault(id(v), p)
+            for k, x in v.__dict__.items():
+                visit(x, f'{p}.{k}', depth + 1)
         elif type(v).__name__ == 'Trace':
             seen.setdefault(id(v), p)
             visit(v.index, p + '.index', depth + 1)
